@@ -866,6 +866,15 @@ func (m *endpointManager) resolveWorkloadEndpoints() {
 					// that should now become active.
 					bestShadowedId := types.WorkloadEndpointID{}
 					for sId, sWorkload := range m.shadowedWlEndpoints {
+						if _, pending := m.pendingWlEpUpdates[sId]; pending {
+							// This batch also updates or removes the shadowed endpoint.
+							// That pending entry supersedes our shadow copy and will be
+							// resolved in its own right (re-shadowing the endpoint if
+							// need be); promoting the shadow copy would overwrite it,
+							// resurrecting a removed endpoint or reverting an update.
+							delete(m.shadowedWlEndpoints, sId)
+							continue
+						}
 						logCxt.Infof("Old workload %v", oldWorkload)
 						logCxt.Infof("Shadowed workload %v", sWorkload)
 						if sWorkload.Name == oldWorkload.Name {
